@@ -14,11 +14,13 @@ fn mm(class: &str, detail: String) -> Mismatch {
     Mismatch { class: class.to_string(), detail }
 }
 
-pub struct ReadCfg {
+pub struct ReadCfg<'a> {
     pub policy: Policy,
     pub bufs: Vec<u32>,
     /// read content of at most this many entries (all metadata is always compared)
     pub max_content_entries: usize,
+    /// the independent parse of the same image, when available (offsets are compared against it)
+    pub parsed: Option<&'a Parsed>,
 }
 
 fn show(s: &str) -> String {
@@ -82,7 +84,7 @@ pub fn mode_ok(e: &MEntry, got: Option<u32>) -> bool {
 }
 
 /// C01 oracle: open the image with the crate's seekable reader and compare with the model.
-pub fn check_reader(store: &Shared, m: &Model, rc: &ReadCfg, ctx: &mut Ctx) -> Result<(), Mismatch> {
+pub fn check_reader(store: &Shared, m: &Model, rc: &ReadCfg<'_>, ctx: &mut Ctx) -> Result<(), Mismatch> {
     let disk = SimDisk::new(store.clone(), rc.policy.clone());
     let io = disk.io.clone();
     let mut ar = match ZipArchive::new(disk) {
@@ -112,7 +114,7 @@ pub fn check_reader(store: &Shared, m: &Model, rc: &ReadCfg, ctx: &mut Ctx) -> R
         let mut header_starts: Vec<u64> = Vec::with_capacity(n);
         for (i, e) in m.entries.iter().enumerate() {
             let read_content = i % stride == 0 || i + 1 == n;
-            let undecodable = !matches!(e.method, 0 | 8 | 12 | 93);
+            let undecodable = !matches!(e.method, 0 | 8 | 12 | 93) || e.base_encrypted;
             let opened = if undecodable {
                 ar.by_index_raw(i)
             } else if let Some(pw) = &e.password {
@@ -140,6 +142,18 @@ pub fn check_reader(store: &Shared, m: &Model, rc: &ReadCfg, ctx: &mut Ctx) -> R
             let lm = f.last_modified();
             if (lm.datepart(), lm.timepart()) != e.dos {
                 return Err(mm("C01/timestamp", format!("entry {i}: DOS words ({:#x},{:#x}) != expected ({:#x},{:#x})", lm.datepart(), lm.timepart(), e.dos.0, e.dos.1)));
+            }
+            if let Some(bm) = e.base_mode {
+                if f.unix_mode() != bm {
+                    return Err(mm("C13/unix-mode", format!("entry {i}: unix_mode {:?} differs from the base archive's {:?}", f.unix_mode(), bm)));
+                }
+            }
+            if let Some(p) = rc.parsed {
+                if let Some(Ok(l)) = p.locals.get(i) {
+                    if f.data_start() != l.data_start {
+                        return Err(mm("C17/reader-data-start", format!("entry {i}: reader reports data_start {} but the data begins at {}", f.data_start(), l.data_start)));
+                    }
+                }
             }
             if !mode_ok(e, f.unix_mode()) {
                 return Err(mm("C01/unix-mode", format!("entry {i}: unix_mode {:?} != expected {:?}", f.unix_mode().map(|x| format!("{x:o}")), e.mode.map(|x| format!("{x:o}")))));
@@ -193,7 +207,7 @@ pub fn check_reader(store: &Shared, m: &Model, rc: &ReadCfg, ctx: &mut Ctx) -> R
             }
             checked += 1;
             let e = &m.entries[*last];
-            let got = if matches!(e.method, 0 | 8 | 12 | 93) {
+            let got = if matches!(e.method, 0 | 8 | 12 | 93) && !e.base_encrypted {
                 if let Some(pw) = &e.password {
                     match ar.by_name_decrypt(name, pw) {
                         Ok(Ok(f)) => Some(f.header_start()),
@@ -246,7 +260,9 @@ pub fn check_indep_parsed<S: Src + ?Sized>(img: &S, p: Parsed, m: &Model, allow_
     }
     let pw = |i: usize| m.entries.get(i).and_then(|e| e.password.clone());
     let skip = |i: usize| m.entries.get(i).map(|e| e.raw.as_ref().map(|r| r.plain.is_none()).unwrap_or(false)).unwrap_or(false);
-    let vo = ValidateOpts { passwords: &pw, allow_gaps: allow_gaps || m.had_write_after_raw, decode_limit: 64 << 20, skip_decode: &skip };
+    let relax = |i: usize| m.entries.get(i).map(|e| e.kind == MKind::Base).unwrap_or(false);
+    let skip = |i: usize| skip(i) || m.entries.get(i).map(|e| e.base_encrypted).unwrap_or(false);
+    let vo = ValidateOpts { passwords: &pw, allow_gaps: allow_gaps || m.had_write_after_raw, decode_limit: 64 << 20, skip_decode: &skip, relax_entry: &relax };
     let bad = indep::validate(img, &p, &vo);
     if !bad.is_empty() {
         return Err(mm("C02/invalid", format!("{} problem(s): {}", bad.len(), bad.iter().take(3).cloned().collect::<Vec<_>>().join("; "))));
@@ -275,13 +291,13 @@ pub fn check_indep_parsed<S: Src + ?Sized>(img: &S, p: Parsed, m: &Model, allow_
         if (c.date, c.time) != e.dos {
             return Err(mm("C02/timestamp", format!("entry {i}: DOS words differ")));
         }
-        if (c.flags & 1 != 0) != e.password.is_some() {
+        if e.kind != MKind::Base && (c.flags & 1 != 0) != e.password.is_some() {
             return Err(mm("C02/encrypted-flag", format!("entry {i}: encryption flag {} but password given = {}", c.flags & 1, e.password.is_some())));
         }
         match &e.raw {
             Some(rw) => {
                 if c.crc != rw.crc || c.usize != rw.usize || c.csize != rw.csize {
-                    return Err(mm("C14/raw-metadata", format!("entry {i}: crc/usize/csize differ from the source's")));
+                    return Err(mm("C14/raw-metadata", format!("entry {i}: crc/usize/csize {:#x}/{}/{} differ from the source's {:#x}/{}/{}", c.crc, c.usize, c.csize, rw.crc, rw.usize, rw.csize)));
                 }
                 if let Ok(l) = &p.locals[i] {
                     if c.csize < (1 << 26) {
